@@ -362,8 +362,14 @@ class Report:
     def fail(self, what, case, detail):
         self.failures.append({'what': what, 'case': case, 'detail': detail})
 
-    def known(self, fid, desc):
-        self.known_seen[fid] = desc
+    def known(self, fid, desc, case=None, detail=None):
+        """An observed failure matching the signature of finding [fid]: reported as
+        KNOWN-FINDING only if known_findings.json lists it; otherwise it is a violation."""
+        listed = {f['id'] for f in load_known().get('findings', []) if f.get('property') == self.pid}
+        if fid in listed:
+            self.known_seen.setdefault(fid, desc)
+        else:
+            self.fail('unlisted finding %s: %s' % (fid, desc), case, detail)
 
     def broke(self, what):
         self.broken.append(what)
